@@ -739,69 +739,75 @@ class BaseWorkflow(object, metaclass=abc.ABCMeta):
                                 # facility.assigned_task_list.append(task)
 
     def __check_finished(self, time: int, error_tol=1e-10):
-        working_and_zero_task_set = set(
-            filter(
-                lambda task: task.state == BaseTaskState.WORKING
-                and task.remaining_work_amount < 0.0 + error_tol,
-                self.task_list,
+        # Repeat until no task changes: a task whose FF/SF predecessor finishes
+        # in this call must finish in this call as well, whatever the list order.
+        changed = True
+        while changed:
+            changed = False
+            working_and_zero_task_list = list(
+                filter(
+                    lambda task: task.state == BaseTaskState.WORKING
+                    and task.remaining_work_amount < 0.0 + error_tol,
+                    self.task_list,
+                )
             )
-        )
-        for task in working_and_zero_task_set:
-            # check FINISH condition by each dependency
-            # SF: if input task is working
-            # FF: if input task is finished
-            finished = True
-            for input_task, dependency in task.input_task_list:
-                if dependency == BaseTaskDependency.FS:
-                    pass
-                elif dependency == BaseTaskDependency.SS:
-                    pass
-                elif dependency == BaseTaskDependency.SF:
-                    if (
-                        input_task.state == BaseTaskState.WORKING
-                        or input_task.state == BaseTaskState.FINISHED
-                    ):
-                        finished = True
-                    else:
-                        finished = False
-                        break
-                elif dependency == BaseTaskDependency.FF:
-                    if input_task.state == BaseTaskState.FINISHED:
-                        finished = True
-                    else:
-                        finished = False
-                        break
-            if finished:
-                task.state = BaseTaskState.FINISHED
-                task.remaining_work_amount = 0.0
+            for task in working_and_zero_task_list:
+                # check FINISH condition by each dependency
+                # SF: if input task is working
+                # FF: if input task is finished
+                finished = True
+                for input_task, dependency in task.input_task_list:
+                    if dependency == BaseTaskDependency.FS:
+                        pass
+                    elif dependency == BaseTaskDependency.SS:
+                        pass
+                    elif dependency == BaseTaskDependency.SF:
+                        if (
+                            input_task.state == BaseTaskState.WORKING
+                            or input_task.state == BaseTaskState.FINISHED
+                        ):
+                            finished = True
+                        else:
+                            finished = False
+                            break
+                    elif dependency == BaseTaskDependency.FF:
+                        if input_task.state == BaseTaskState.FINISHED:
+                            finished = True
+                        else:
+                            finished = False
+                            break
+                if finished:
+                    task.state = BaseTaskState.FINISHED
+                    changed = True
+                    task.remaining_work_amount = 0.0
 
-                for worker in task.allocated_worker_list:
-                    if len(worker.assigned_task_list) > 0 and all(
-                        list(
-                            map(
-                                lambda task: task.state == BaseTaskState.FINISHED,
-                                worker.assigned_task_list,
-                            )
-                        )
-                    ):
-                        worker.state = BaseWorkerState.FREE
-                        worker.assigned_task_list.remove(task)
-                task.allocated_worker_list = []
-
-                if task.need_facility:
-                    for facility in task.allocated_facility_list:
-                        if len(facility.assigned_task_list) > 0 and all(
+                    for worker in task.allocated_worker_list:
+                        if len(worker.assigned_task_list) > 0 and all(
                             list(
                                 map(
                                     lambda task: task.state == BaseTaskState.FINISHED,
-                                    facility.assigned_task_list,
+                                    worker.assigned_task_list,
                                 )
                             )
                         ):
-                            facility.state = BaseFacilityState.FREE
-                            facility.assigned_task_list.remove(task)
+                            worker.state = BaseWorkerState.FREE
+                            worker.assigned_task_list.remove(task)
+                    task.allocated_worker_list = []
 
-                    task.allocated_facility_list = []
+                    if task.need_facility:
+                        for facility in task.allocated_facility_list:
+                            if len(facility.assigned_task_list) > 0 and all(
+                                list(
+                                    map(
+                                        lambda task: task.state == BaseTaskState.FINISHED,
+                                        facility.assigned_task_list,
+                                    )
+                                )
+                            ):
+                                facility.state = BaseFacilityState.FREE
+                                facility.assigned_task_list.remove(task)
+
+                        task.allocated_facility_list = []
 
     def __set_est_eft_data(self, time: int):
         input_task_set = set()
